@@ -4,6 +4,7 @@ from fractions import Fraction
 from harness.core import *
 from harness import gen
 from harness.props._sp_util import *
+from harness.props import _c04_pat as pat
 
 PID = "C04"
 LEVEL = "proof"
@@ -129,12 +130,14 @@ class Obj:
             self.fgg.add_rule(rule)
         self.rules.append((rule, nodes, edges))
 
-def build_variant(spec, variant, rng, n_rules=None, ids="mixed"):
+def build_variant(spec, variant, rng, n_rules=None, ids="mixed", pats=None):
     """an FGG for spec whose label objects are, by variant:
     'shared' one EdgeLabel/NodeLabel object per name (as json_to_fgg does); 'fresh' a new, equal object for (almost)
     every use; 'api' built with new_finite_domain / new_node / new_edge / new_rule / new_finite_factor (a new label
     object per node, edge and left-hand side); 'copy' FGG.copy() of a 'shared' object.  Only the first n_rules rules
-    are added (Obj.add_rule adds the others later)."""
+    are added (Obj.add_rule adds the others later).  pats: terminal -> pattern (harness/props/_c04_pat.py): that factor's
+    weights are the PatternedTensor built from the pattern (whose hand-computed denotation spec["weights"] holds; checked
+    by read-back) instead of a dense torch tensor."""
     import fggs, torch
     o = Obj(spec, "shared" if variant == "copy" else variant, rng, ids=ids)
     st = spec["start"]
@@ -154,6 +157,13 @@ def build_variant(spec, variant, rng, n_rules=None, ids="mixed"):
             o.fgg.add_domain(o.NL(i, variant == "fresh"), fggs.FiniteDomain(["v%d_%d" % (i, k) for k in range(size)]))
     for el, w in sorted(spec["weights"].items()):
         t = torch.tensor(gen.nested_map(w, SRV.wconv), dtype=SRV.torch_dtype())
+        if pats and el in pats:
+            shape = [spec["nlabels"][nl] for nl in spec["elabels"][el]["type"]]
+            want = t.reshape(shape)
+            t = pat.pat_build(pats[el], SRV.wconv, SRV.torch_dtype())
+            if list(t.shape) != shape or not torch.equal(t.to_dense(), want):
+                raise RuntimeError("harness: PatternedTensor built from pattern %r of t%d does not denote the hand-computed tensor (to_dense() %r != %r)"
+                                   % (pats[el], el, t.to_dense().tolist(), want.tolist()))
         name = gen.el_name(spec, el)
         if variant == "api" and o.fgg.has_edge_label_name(name):
             fac = o.fgg.new_finite_factor(name, t)
@@ -275,9 +285,9 @@ def run_history(spec, plan, rng):
     part = dict(spec, rules=spec["rules"][:plan["cut"]])
     return (grammar_wire(part), weights_wire(spec, SRV), K_ENCL, wire_steps), recs
 
-def run_impl(spec, xi, ids="explicit", rng=None, variant="shared"):
+def run_impl(spec, xi, ids="explicit", rng=None, variant="shared", pats=None):
     import fggs
-    b = gen.build_fgg(spec, SRV.wconv, ids=ids, rng=rng, dtype=SRV.torch_dtype()) if variant == "shared" else build_variant(spec, variant, rng, ids=ids)
+    b = gen.build_fgg(spec, SRV.wconv, ids=ids, rng=rng, dtype=SRV.torch_dtype()) if (variant == "shared" and not pats) else build_variant(spec, variant, rng, ids=ids, pats=pats)
     with warnings.catch_warnings():
         warnings.simplefilter("ignore")
         sp = fggs.sum_product(b.fgg, semiring=SRV.semiring(), method="fixed-point")
@@ -379,11 +389,51 @@ def run(tier, seed):
             avals.append((grammar_wire(spec), weights_wire(spec, SRV), list(xi), (KMAX, TOL), (obs[0], obs[1])))
             meta.append((spec, list(xi), obs, note, case))
     T['impl_single_calls'] = round(time.time() - w0, 1); w0 = time.time()
+    # --- grammars whose factors are PatternedTensors (diagonal / embedded / one-hot / expanded / product patterns; default
+    # -inf, rarely finite), nonterminals of arity 2-3 over domains of different sizes, rules with 2-3 external nodes and
+    # internal nodes tied to external ones by a pattern; the model is given the hand-computed dense denotation
+    npat = int(os.environ.get("VERIF_NPAT", 0)) or (70 if tier == "quick" else 1200)
+    pstat = dict(grammars=0, calls=0, judged=0, judged_first_two_externals_differ=0, grammars_with_internal_node_tied_to_external=0, kinds={}, variants={})
+    first_pat = len(vals)
+    for i in range(npat):
+        spec, pats = pat.pattern_spec(rng, recursive=(i % 4 == 3))
+        distinct.add(json.dumps(gen.spec_jsonable(spec), sort_keys=True)); pstat["grammars"] += 1
+        for f in spec["features"]: feats[f] = feats.get(f, 0) + 1
+        if pat.tied_internal(spec, pats): pstat["grammars_with_internal_node_tied_to_external"] += 1
+        for p_ in pats.values(): pstat["kinds"][p_["kind"]] = pstat["kinds"].get(p_["kind"], 0) + 1
+        st = spec["elabels"][spec["start"]]["type"]
+        xis = list(itertools.product(*[range(spec["nlabels"][nl]) for nl in st]))
+        rng.shuffle(xis)
+        xis.sort(key=lambda x: x[0] == x[1])          # start assignments whose first two components differ first (stable)
+        variant = VARIANTS[i % 4]; ids = ["explicit", "implicit", "mixed"][i % 3]
+        pstat["variants"][variant] = pstat["variants"].get(variant, 0) + 1
+        for xi in list(dict.fromkeys(xis[:3] + xis[-1:])):
+            bseed = rng.getrandbits(30)
+            case = dict(spec=gen.spec_jsonable(spec), start_asst=list(xi), variant=variant, ids=ids, build_seed=bseed,
+                        patterns={str(el): pat.pat_jsonable(p_) for el, p_ in pats.items()})
+            try:
+                spv, tree, dw = run_impl(spec, list(xi), ids=ids, rng=random.Random(bseed), variant=variant, pats=pats)
+            except Exception as e:
+                violations.append(Violation("harness could not run viterbi/sum_product on a grammar with PatternedTensor weights: %r" % (e,), case=case,
+                                            corr="corr:viterbi", failing_input_found=True, call="fggs.viterbi"))
+                continue
+            if isinstance(tree, tuple) and tree[0] == "exc":
+                obs = (1, DUMMY, (0, Fraction(0)), SRV.obs(spv)); note = tree[1]
+            else:
+                obs = (0, tree, tv(dw) if not isinstance(dw, tuple) else (2, Fraction(0)), SRV.obs(spv))
+                note = dw[1] if isinstance(dw, tuple) else None
+            note = ((note + "; ") if note else "") + "PatternedTensor weights: " + ", ".join("t%s=%s" % (el, p_["kind"]) for el, p_ in sorted(pats.items()))
+            vals.append((grammar_wire(spec), weights_wire(spec, SRV), list(xi), K_ENCL, obs))
+            avals.append((grammar_wire(spec), weights_wire(spec, SRV), list(xi), (KMAX, TOL), (obs[0], obs[1])))
+            meta.append((spec, list(xi), obs, note, case)); pstat["calls"] += 1
+    T['impl_patterned_calls'] = round(time.time() - w0, 1); w0 = time.time()
     codes, nk = run_model(VIT, vals, seed=seed, coq_sample=6 if tier == "quick" else 40, tag="c04")
     skipped = {30: 0, 31: 0}; judged = 0
     for (spec, xi, obs, note, case), c in zip(meta, codes):
         if c in skipped: skipped[c] += 1; continue
         judged += 1
+        if "patterns" in case:
+            pstat["judged"] += 1; pstat["judged_first_two_externals_differ"] += int(xi[0] != xi[1])
         if c == 0: continue
         violations.append(Violation(WHAT.get(c, "framework inconsistency (code %d)" % c) + ((" [" + note + "]") if note else "") + " [object built as '%s']" % case["variant"],
                                     case=case, observed=obs,
@@ -456,7 +506,7 @@ def run(tier, seed):
                                     case=case, observed=rc["obs"], oracle={5: "wf_dtree_b", 6: "weight = optimum", 7: "derive weight", 8: "optimum"}.get(cc, "optimum finite => derivation"),
                                     corr="C04 / corr:viterbi_hist (Model/ViterbiHist.v, C04_hist_check_optimal)", failing_input_found=cc in WHAT,
                                     call="fggs.viterbi(fgg, %r)" % (tuple(s.get("start_asst", ())),), finding_key=classify(spec, rc["obs"])))
-    cov = dict(wall_seconds_by_phase=T, evaluations=len(vals) + hist["calls"], single_calls=len(vals), viterbi_model=alg, exact_agreement=alg["exact_agreement"], kernel_reevaluated_alg=ank, distinct_nontrivial=len(distinct), judged=judged,
+    cov = dict(wall_seconds_by_phase=T, evaluations=len(vals) + hist["calls"], single_calls=len(vals), patterned_weights=pstat, viterbi_model=alg, exact_agreement=alg["exact_agreement"], kernel_reevaluated_alg=ank, distinct_nontrivial=len(distinct), judged=judged,
                skipped_divergent=skipped[30], skipped_optimum_not_finite=skipped[31], object_construction=vhist, histories=hist, kernel_reevaluated_hist=hnk,
                rule="random FGG specs with integer log-weights in {-inf,-2,-1,0} (two thirds non-recursive, one third recursive incl. weight-0 cycles and non-linear recursion; chains of 1-4 nonterminals, 1 = a singleton self-recursive component), up to two start assignments each; forced shapes: rules whose attached nodes are all external, isolated nodes, size-1 domains, nullary factors, repeated attachments; the FGG object is built in four ways in rotation (one label object per name / a new equal EdgeLabel+NodeLabel object per use / the convenience API new_node,new_edge,new_rule,new_finite_factor / FGG.copy()); plus histories of 3 (thorough: 2-5) calls on one object with in-place updates of the tensor given to FiniteFactor, of weights.physical, assignment of a new tensor, and rules added between calls (updates prefer entries the previous answer used), every call judged against the state at that call, with deep before/after snapshots of the object around every call; distinct by spec, all with >= 1 rule",
                feature_histogram=feats, kernel_reevaluated=nk,
@@ -480,7 +530,8 @@ def replay(path):
               "object changed by a call:", [rc["changed"] for rc in recs])
         return 1 if (code not in (0, 31) or any(rc["changed"] for rc in recs)) else 0
     xi = c["start_asst"]
-    spv, tree, dw = run_impl(spec, xi, ids=c.get("ids", "explicit"), rng=random.Random(c.get("build_seed", 0)), variant=c.get("variant", "shared"))
+    pats = {int(el): pat.pat_from_json(p_) for el, p_ in c["patterns"].items()} if "patterns" in c else None
+    spv, tree, dw = run_impl(spec, xi, ids=c.get("ids", "explicit"), rng=random.Random(c.get("build_seed", 0)), variant=c.get("variant", "shared"), pats=pats)
     if isinstance(tree, tuple) and tree[0] == "exc":
         obs = (1, DUMMY, (0, Fraction(0)), SRV.obs(spv))
     else:
